@@ -81,18 +81,23 @@ func VerifC05_RawMounts() {
 		return c05info{dir: !(srcIsFile && p == "/data/src")}, nil
 	})
 	roBind, rwProc := sym.Bool("bind_readonly"), sym.Bool("proc_writable")
+	// a hand-built bind entry (config loaders / WithMount): any flag word with MS_BIND
+	handFlags := uintptr(sym.U64("hand_flags"))
+	sym.Assume(handFlags&syscall.MS_BIND != 0)
+	sym.Assume(handFlags&^(syscall.MS_BIND|syscall.MS_RDONLY|syscall.MS_NOSUID|syscall.MS_NODEV|syscall.MS_NOEXEC|syscall.MS_PRIVATE|syscall.MS_REC|syscall.MS_NOATIME) == 0)
 	b := mount.NewBuilder().
 		WithBind("/data/src", "data/in", roBind).
 		WithBind("/missing", "gone", true).
 		WithTmpfs("w", "size=1m").
 		WithProcRW(rwProc).
+		WithMount(mount.Mount{Source: "/data/src2", Target: "hand", Flags: handFlags}).
 		FilterNotExist()
 	params, err := b.Build()
 	sym.Assert(err == nil, "the mount table must build")
 	if err != nil {
 		return
 	}
-	sym.Assert(len(params) == 3, "a bind mount whose source does not exist must be filtered out")
+	sym.Assert(len(params) == 4, "a bind mount whose source does not exist must be filtered out")
 	r := &Runner{Args: []string{"/bin/prog"}, Env: []string{"A=1"}, Files: []uintptr{0, 1, 2},
 		CloneFlags: syscall.CLONE_NEWNS | syscall.CLONE_NEWUSER | syscall.CLONE_NEWPID, Mounts: params, PivotRoot: "/newroot", WorkDir: "/w",
 		NoNewPrivs: true, DropCaps: true}
@@ -104,8 +109,8 @@ func VerifC05_RawMounts() {
 		return
 	}
 	sym.Reach("execed")
-	srcFlags := uintptr(k.LastStatfsFlags)
-	mountOracle(c.Mounts, "data/in", roBind, true, srcFlags)
+	mountOracle(c.Mounts, "data/in", roBind, true, uintptr(k.StatfsFlags["/data/src"]))
+	mountOracle(c.Mounts, "hand", handFlags&syscall.MS_RDONLY != 0, true, uintptr(k.StatfsFlags["/data/src2"]))
 	mountOracle(c.Mounts, "w", false, false, 0)
 	mountOracle(c.Mounts, "proc", !rwProc, false, 0)
 	// the root: private propagation, a tmpfs, pivoted, old root detached and removed, read-only
@@ -115,7 +120,7 @@ func VerifC05_RawMounts() {
 	sym.Assert(c.RootReadonly, "the new root itself must be remounted read-only")
 	// nothing but the configured mount points is created in the new root
 	for _, d := range c.Mkdirs {
-		ok := d == "old_root" || d == "data" || d == "data/in" || d == "w" || d == "proc"
+		ok := d == "old_root" || d == "data" || d == "data/in" || d == "w" || d == "proc" || d == "hand"
 		sym.Assert(ok, "an unexpected directory was created in the new root: "+d)
 	}
 	if srcIsFile {
